@@ -1215,3 +1215,7 @@ def finish(ctx):
   need("stft:samples-compared", 5000)
   need("reject:unknown", 50)
   need("reject:misplaced-ola", 50)
+
+
+from props import c09_x as _x, ext as _ext
+_ext.install(globals(), _x)
